@@ -402,3 +402,26 @@ class Run(object):
               % (self.prop, self.discharged, self.obligations, len(self.disagreements),
                  cov['oracle_failures_known'], len(new), time.time() - self.t0), flush=True)
         sys.exit(1 if violations else 0)
+
+
+def run_guarded(prop, main):
+    """Run a check's main(); an unexpected exception inside the harness (typically the implementation
+    raising where the harness did not expect it) is reported as a violation with the traceback as
+    replay instead of a bare crash."""
+    import traceback
+    try:
+        main()
+    except SystemExit:
+        raise
+    except BaseException:   # noqa
+        tb = traceback.format_exc()
+        d = os.path.join(ROOT, 'replays')
+        os.makedirs(d, exist_ok=True)
+        p = os.path.join(d, '%s-harness-%d.json' % (prop, os.getpid()))
+        with open(p, 'w') as f:
+            json.dump({'property': prop, 'kind': 'harness-exception',
+                       'what': 'the check itself raised: the implementation behaved in a way the harness does not '
+                               'handle; the traceback names the call', 'traceback': tb}, f, indent=1)
+        print(tb)
+        print('VIOLATION property=%s replay=%s no-failing-input-found' % (prop, p))
+        sys.exit(1)
